@@ -462,7 +462,7 @@ def _call(c):
     if op == "strand":
         E = _encs()[c["enc"]]
         from bionumpy.datatypes import Bed6
-        names = [f"c{i}" for i in range(len(c["seqs"]))]
+        names = c.get("names") or [f"c{i}" for i in range(len(c["seqs"]))]
         ivs = c["view"]["base"] if "view" in c else c["ivs"]
         bed = Bed6([names[i[0]] for i in ivs], [i[1] for i in ivs], [i[2] for i in ivs], ["x"] * len(ivs),
                    [0] * len(ivs), [chr(i[3]) for i in ivs])
@@ -494,9 +494,17 @@ def _call(c):
                     pass
             if c.get("entry") == "getitem":
                 # genomic_sequence[intervals]: stranded iff the interval object says so
-                if genome is None:
-                    import bionumpy as bnp
-                    genome = bnp.Genome.from_dict({n: len(s) for n, s in zip(names, c["seqs"])})
+                import bionumpy as bnp
+                if genome is None or "ctx" in c:
+                    # the genome context may list the chromosomes in ANOTHER order than the sequence container (chrom.sizes
+                    # vs. file order) and may know more chromosomes than there are sequences
+                    order = c.get("ctx", list(range(len(names))))
+                    sizes = {names[i]: len(c["seqs"][i]) for i in order}
+                    for extra in c.get("ctx_extra", []):
+                        sizes[extra] = 7
+                    if c.get("ctx_extra_first"):
+                        sizes = dict(list(sizes.items())[::-1])
+                    genome = bnp.Genome.from_dict(sizes)
                 r = gs[genome.get_intervals(bed, stranded=(via == "genomic"))]
             else:
                 r = gs.extract_intervals(bed, stranded=(via == "genomic"))
@@ -992,6 +1000,37 @@ def cases(tier, rng):
                     yield {"op": "strand", "enc": enc, "via": rng.choice(["genomic", "genomic", "unstranded"]), "seqs": ss, "ivs": ivs,
                            "backend": "fasta", "width": rng.choice([1, 3, 4, 7, 60]),
                            **({"entry": "getitem"} if rng.random() < 0.5 else {})}
+    # 4b2'. the genome context orders / names the chromosomes differently from the sequence container
+    A5c = _alpha("ACGTN")
+    pool = ["chr1", "chr10", "chr2", "chrX", "chr11", "chrM", "1", "10", "2"]
+    for _ in range(150 if big else 30):
+        nseq = rng.choice([2, 3, 4])
+        names = rng.sample(pool, nseq)
+        L = rng.choice([4, 6, 9])
+        ss = [[rng.choice(A5c) for _ in range(L + rng.choice([0, 0, 1, 3]))] for _ in range(nseq)]      # similar lengths: a wrong
+        ivs = []                                                                                        # chromosome still fits
+        for _ in range(rng.choice([1, 2, 4, 6])):
+            ch = rng.randrange(nseq)
+            a = rng.randrange(L)
+            ivs.append([ch, a, rng.randrange(a, L + 1), rng.choice([43, 45])])
+        order = list(range(nseq))
+        kind = rng.choice(["perm", "sorted", "natural", "reversed"])
+        if kind == "perm":
+            rng.shuffle(order)
+        elif kind == "sorted":
+            order.sort(key=lambda i: names[i])
+        elif kind == "natural":
+            order.sort(key=lambda i: (len(names[i]), names[i]))
+        else:
+            order.reverse()
+        backend = rng.choice(["dict", "dict", "fasta"])
+        c = {"op": "strand", "enc": "ACGTN", "via": rng.choice(["genomic", "genomic", "unstranded"]), "seqs": ss, "ivs": ivs,
+             "entry": "getitem", "names": names, "ctx": order}
+        if backend == "fasta":
+            c.update(backend="fasta", width=rng.choice([3, 60]))
+        elif rng.random() < 0.4:
+            c.update(ctx_extra=[rng.choice(["chrUn", "chr0", "scaffold9"])], ctx_extra_first=rng.random() < 0.5)
+        yield c
     A5_ = _alpha("ACGTN")
     for _ in range(30 if big else 6):
         ss = [[rng.choice(A5_) for _ in range(rng.choice([1, 4, 9]))] for _ in range(rng.choice([1, 2]))]
